@@ -77,6 +77,8 @@ DRIVERS = [
     dict(name="c06_conva", src="c06_kernel.cpp", defines=["OP_CONVA"], ops=["conva"]),
     dict(name="c06_sweep", src="c06_kernel.cpp", defines=["OP_SWEEP"], ops=["convsweep"], opt="-O2"),
     dict(name="c06_path_lp32", src="c06_path.cpp", defines=["VERIF_CFG=verif_cfg32"], ops=["store", "load", "loadw", "loadcv", "loadcvp", "loadidx", "loadcvr", "arg", "ret", "cbarg", "cbret", "equiv", "storemix"]),
+    # LP32-like integers behind a pointer representation as wide as the host's (pointer width says nothing about integers)
+    dict(name="c06_path_lp32p64", src="c06_path.cpp", defines=["VERIF_CFG=verif_cfg64"], ops=["xstore", "xload", "xloadw", "xloadcv", "xloadcvp", "xloadidx", "xloadcvr", "xarg", "xret", "xcbarg", "xcbret", "xequiv", "xstoremix"]),
     dict(name="c06_path_wide", src="c06_path.cpp", defines=["VERIF_CFG=verif_cfgwide"], ops=["wstore", "wload", "wloadw", "wloadcv", "wloadcvp", "wloadidx", "wloadcvr", "warg", "wret", "wcbarg", "wcbret", "wequiv", "wstoremix"]),
 ]
 
@@ -164,7 +166,7 @@ def gen_cases(tier, rng):
                         arr[pos] = b
                         cases.append("conva %s %s %s" % (t, f, ",".join(map(str, arr))))
     # path level
-    for abi, pre in (("lp32", ""), ("wide", "w")):
+    for abi, pre in (("lp32", ""), ("wide", "w"), ("lp32", "x")):
         for k in KINDS:
             cases.append("%sequiv %s %s" % (pre, abi, k))
             if k == "wchar":
@@ -211,7 +213,7 @@ def gen_cases(tier, rng):
 
 def NONTRIVIAL(case, model, cls):
     # non-trivial: reaches a checking branch, or crosses with a different width/signedness
-    return "same-widen" not in cls or case.startswith(("w", "store", "load", "arg", "ret", "cb"))
+    return "same-widen" not in cls or case.startswith(("w", "x", "store", "load", "arg", "ret", "cb"))
 
 
 RULE = ("cases: every ordered pair of the 15 integer kinds x boundary values (limits +-1 of every kind, +-2^k, +-2^k+-1, random) "
